@@ -342,6 +342,14 @@ def pruneWhere (s : St) (c : Nat) (p : Nat → Bool) : St :=
 def pruneBelow (s : St) (c h : Nat) : St := pruneWhere s c (fun x => decide (x < h))
 def pruneAbove (s : St) (c h : Nat) : St := pruneWhere s c (fun x => decide (h < x))
 
+/-- `RollbackCanonicalClient`, once the canonical client `cl` (id `c`) is at hand -/
+def rollbackClient (s : St) (ra lastValid c : Nat) (cl : Client) : St × Option LErr :=
+  match (cl.cons.filter (·.1 ≤ lastValid)).getLast? with
+  | none => (s, some .forkNoCons)
+  | some l =>
+    let s1 := setClient s { cl with cons := cl.cons.filter (·.1 ≤ lastValid), latest := l.1, frozen := true }
+    (pruneAbove { s1 with descs := s1.descs.filter (fun d => !(d.ra == ra && lastValid < d.h)) } c (lastValid - 1), none)
+
 /-- `RollbackCanonicalClient` -/
 def rollback (s : St) (ra lastValid : Nat) : St × Option LErr :=
   match lookup s.r2c ra with
@@ -349,13 +357,7 @@ def rollback (s : St) (ra lastValid : Nat) : St × Option LErr :=
   | some c =>
     match getClient s c with
     | none => (s, some .internal)
-    | some cl =>
-      let kept := cl.cons.filter (·.1 ≤ lastValid)
-      match kept.getLast? with
-      | none => (s, some .forkNoCons)
-      | some l =>
-        let s1 := setClient s { cl with cons := kept, latest := l.1, frozen := true }
-        (pruneAbove { s1 with descs := s1.descs.filter (fun d => !(d.ra == ra && lastValid < d.h)) } c (lastValid - 1), none)
+    | some cl => rollbackClient s ra lastValid c cl
 
 /-- `IsFirstHeightOfLatestFork` -/
 def isFirstOfFork (r : Core.Rollapp) (rev h : Nat) : Bool :=
@@ -363,24 +365,27 @@ def isFirstOfFork (r : Core.Rollapp) (rev h : Nat) : Bool :=
     | some x => x.1 == rev && x.2 == h
     | none => false) && rev == Core.latestRev r
 
+/-- `ResolveHardFork` for the first state info `st` of the new revision -/
+def resolveFork (s : St) (ra : Nat) (st : Core.SInfo) (cl : Client) : St × Option LErr :=
+  if st.start ≤ cl.latest then (s, some .resolveHeight) else
+  match getDesc s ra st.start with
+  | none => (s, some .internal)
+  | some d =>
+    (setClient s { cl with cons := insCons st.start ⟨d.root, d.ts.getD 0, valHash st.creator⟩ cl.cons, latest := st.start, frozen := false }, none)
+
+/-- the ordinary path of `AfterUpdateState`: validate against optimistic headers, prune signer records -/
+def validateNew (s : St) (ra : Nat) (st : Core.SInfo) (c : Nat) (cl : Client) : St × Option LErr :=
+  match validateStateInfo s cl ra st with
+  | (_, some e) => (s, some e)
+  | (_, none) => (pruneBelow s c (st.last + 1), none)
+
 /-- rollapp hook `AfterUpdateState` of x/lightclient for the state info `st` just stored -/
 def afterUpdate (s : St) (ra rev : Nat) (st : Core.SInfo) : St × Option LErr :=
   match lookup s.r2c ra with
   | none => (s, none)
   | some c =>
     match getClient s c, Core.getRa s.core ra with
-    | some cl, some r =>
-      if isFirstOfFork r rev st.start then
-        -- ResolveHardFork
-        if st.start ≤ cl.latest then (s, some .resolveHeight) else
-        match getDesc s ra st.start with
-        | none => (s, some .internal)
-        | some d =>
-          (setClient s { cl with cons := insCons st.start ⟨d.root, d.ts.getD 0, valHash st.creator⟩ cl.cons, latest := st.start, frozen := false }, none)
-      else
-        match validateStateInfo s cl ra st with
-        | (_, some e) => (s, some e)
-        | (_, none) => (pruneBelow s c (st.last + 1), none)
+    | some cl, some r => if isFirstOfFork r rev st.start then resolveFork s ra st cl else validateNew s ra st c cl
     | _, _ => (s, some .internal)
 
 /-- does `MsgUnbond` / `MsgDecreaseBond` of `a` reach `TryUnbond` with the light-client blocker vetoing? -/
@@ -410,25 +415,43 @@ def applyForks (s : St) : List (Nat × Nat) → St × Option LErr
 def addDescs (s : St) (ra start : Nat) (ds : List (Nat × Option Nat)) : St :=
   { s with descs := s.descs ++ (ds.zipIdx.map fun (d, i) => { ra := ra, h := start + i, root := d.1, ts := d.2 }) }
 
+/-- keeper.CanUnbond vetoes `MsgUnbond` / `MsgDecreaseBond` -/
+def coreBlocked (s : St) : Core.Op → Bool
+  | .unbond a => unbondBlocked s a
+  | .bondDec a _ => unbondBlocked s a
+  | _ => false
+
+/-- the descriptors of an accepted update are in the store before the hooks run -/
+def withDescs (s1 : St) (o : Core.Op) (ds : List (Nat × Option Nat)) : Option St :=
+  match o with
+  | .update m =>
+    if s1.descs.any (fun d => d.ra == m.ra && m.start ≤ d.h) then none      -- cannot happen on a gap-free chain (C01)
+    else some (addDescs s1 m.ra m.start ds)
+  | _ => some s1
+
+/-- the x/lightclient `AfterUpdateState` hook for the state info an update just stored; `s` is the state to
+    return on failure (the whole message is reverted) -/
+def finishUpdate (s s3 : St) (m : Core.UpdMsg) (ds : List (Nat × Option Nat)) : St × Res :=
+  match Core.getRa s3.core m.ra with
+  | none => (s, .msg .internal)
+  | some r =>
+    -- the state info just stored (a fork to latest in the same op keeps all its heights)
+    match r.states.getLast? with
+    | none => (s, .msg .internal)
+    | some st =>
+      -- the descriptor table and the stored state info cover the same heights (C01: bdlen = num)
+      if st.start != m.start || st.last + 1 - st.start != ds.length then (s, .msg .internal) else
+      match afterUpdate s3 m.ra m.rev st with
+      | (_, some e) => (s, .msg e)
+      | (s4, none) => (s4, .ok)
+
 /-- a Core op with the light-client hooks around it; `ds` = (root, timestamp) of the descriptors of an update -/
 def coreOp (s : St) (o : Core.Op) (ds : List (Nat × Option Nat)) : St × Res :=
-  -- unbond blocker (keeper.CanUnbond)
-  let blocked := match o with
-    | .unbond a => unbondBlocked s a
-    | .bondDec a _ => unbondBlocked s a
-    | _ => false
   match Core.step s.core o with
   | (_, some e) => (s, .msg (.core e))
   | (core1, none) =>
-    if blocked then (s, .msg .unbondBlocked) else
-    let s1 : St := { s with core := core1 }
-    -- descriptors of an accepted update are in the store before the hooks run
-    let s2 := match o with
-      | .update m =>
-        if s1.descs.any (fun d => d.ra == m.ra && m.start ≤ d.h) then none      -- cannot happen on a gap-free chain (C01)
-        else some (addDescs s1 m.ra m.start ds)
-      | _ => some s1
-    match s2 with
+    if coreBlocked s o then (s, .msg .unbondBlocked) else
+    match withDescs { s with core := core1 } o ds with
     | none => (s, .msg .staleDesc)
     | some s2 =>
       -- OnHardFork of every fork this op performed (sequencer hook first, then x/lightclient)
@@ -436,19 +459,7 @@ def coreOp (s : St) (o : Core.Op) (ds : List (Nat × Option Nat)) : St × Res :=
       | (_, some e) => (s, .msg e)
       | (s3, none) =>
         match o with
-        | .update m =>
-          match Core.getRa core1 m.ra with
-          | none => (s, .msg .internal)
-          | some r =>
-            -- the state info just stored (a fork to latest in the same op keeps all its heights)
-            match r.states.getLast? with
-            | none => (s, .msg .internal)
-            | some st =>
-              -- the descriptor table and the stored state info cover the same heights (C01: bdlen = num)
-              if st.start != m.start || st.last + 1 - st.start != ds.length then (s, .msg .internal) else
-              match afterUpdate s3 m.ra m.rev st with
-              | (_, some e) => (s, .msg e)
-              | (s4, none) => (s4, .ok)
+        | .update m => finishUpdate s s3 m ds
         | _ => (s3, .ok)
 
 def createClient (s : St) (chain : Nat) (p : CParams) (h : Nat) (c : Cons) : St × Res :=
